@@ -108,6 +108,8 @@ p3_proof!(c02_pmh3_step_m3_n4_w07, 7, c02_pmh3_step::<3, 4>(0.7));
 
 // =====================================================================================
 // C02 — ProbMinHash3 == ProbMinHash3a on the same weighted set (fresh sketchers, shared oracle)
+// NOT REGISTERED: neither the two-item nor the one-item variant left symbolic execution (IndexMap/hashbrown)
+// within 90 min; kept for reference.  3 == 3a is stated as not decided.
 // =====================================================================================
 // Item labels are concrete (the per-item generator is an oracle keyed by the label's hash, so labels only
 // need to be distinct); weights are powers of two; every generator output is symbolic.  Races that are not
@@ -147,4 +149,43 @@ fn c02_3_vs_3a<const M: usize>(w1: f64, w2: f64) {
 #[kani::unwind(12)]
 fn c02_pmh3_vs_3a_m2() {
     c02_3_vs_3a::<2>(1.0, 2.0);
+}
+
+/// one-item variant: cheaper, weight = any power of two down to 2^-80 (catches entry-point differences that
+/// depend on the weight only)
+fn c02_3_vs_3a_one<const M: usize>() {
+    let e: i64 = kani::any();
+    kani::assume(e >= -80 && e <= 40);
+    let w = f64::from_bits(((1023 + e) as u64) << 52);
+    let mut a = Pmh3 {
+        m: M,
+        b_hasher: BuildHasherDefault::<NoHashHasher>::default(),
+        maxvaluetracker: MaxValueTracker::new(M),
+        exp01: unit_sampler(),
+        signature: vec![0u64; M],
+    };
+    let mut b = Pmh3a {
+        m: M,
+        b_hasher: BuildHasherDefault::<NoHashHasher>::default(),
+        maxvaluetracker: MaxValueTracker::new(M),
+        exp01: unit_sampler(),
+        to_be_processed: Vec::new(),
+        signature: vec![0u64; M],
+    };
+    let mut map: IndexMap<u64, f64, BuildHasherDefault<fnv::FnvHasher>> = IndexMap::with_hasher(Default::default());
+    map.insert(11u64, w);
+    a.hash_item(11u64, &w);
+    b.hash_weigthed_idxmap(&map);
+    for p in 0..M {
+        assert!(a.get_signature()[p] == b.get_signature()[p]);
+        assert!(beq(a.maxvaluetracker.get_value(p), b.maxvaluetracker.get_value(p)));
+    }
+    kani::cover!(a.get_signature()[0] == 11 && a.get_signature()[M - 1] == 11, "witness: the item filled the signature");
+    std::mem::forget(map);
+}
+
+#[kani::proof]
+#[kani::unwind(12)]
+fn c02_pmh3_vs_3a_one_m2() {
+    c02_3_vs_3a_one::<2>();
 }
